@@ -389,10 +389,9 @@ import C02 as _C02
 TRUSTED = list(TRUSTED) + [t for t in _C02.TRUSTED if t.startswith(('translate/pyqueue2coq.py', 'coq/Queue/TieLib.v'))] + [
     'translate/pyqueue2coq.py, pause / resume path: pinned to sample numbers (the harness hands the model int(round((t - t0) * fs))): '
     'the rejection test of pause, `new_sample = int(round((t - self._t0) * self._fs))`, both lines of _ends_after (end = t0 + declared '
-    'duration of the log entry, compared with t), `int(round(delay * self._fs))` of cancel; the Counter loop of requeue '
-    '(`for key, count in Counter(to_requeue).items(): .. += count`) read as one `+= 1` per element of to_requeue; logging with '
+    'duration of the log entry, compared with t), `int(round(delay * self._fs))` of cancel; logging with '
     'compound arguments and the `trials = {..}` dicts built for it dropped; coq/Queue/TieLibC04.v (for loops with an accumulator, '
-    'list comprehension with a method call as filter)']
+    'list comprehension with a method call as filter, collections.Counter(l).items() as the (key, count) pairs in order of first occurrence)']
 
 
 def translate(repo):
